@@ -321,6 +321,8 @@ def decorate(cirq, rng, c, tags=True, nest=True):
         i = rng.randrange(0, len(c) - 1)
         j = rng.randint(i + 1, min(len(c), i + 3))
         sub = cirq.FrozenCircuit(c[i:j])
+        if not list(sub.all_operations()):
+            return c
         if not any(cirq.control_keys(op) - cirq.measurement_key_objs(sub) for op in sub.all_operations()) or True:
             cop = cirq.CircuitOperation(sub)
             r = rng.random()
@@ -724,6 +726,9 @@ def run_case(ctx, cirq, cfg, circuit, kind, deep, ignore, checks, case_no):
     nontrivial = len(ops_in) >= 2 and (out != circuit)
     sem_kind = None
     try:
+        if cfg.contract == 'defer' and ignore and any(cirq.control_keys(o) or cirq.is_measurement(o) for o in collect_ignored(cirq, circuit, True)):
+            # an ignored measurement / classically controlled operation cannot be both left untouched and deferred: not comparable
+            raise opsem.Unsupported('defer_measurements with an ignored measurement or classically controlled operation')
         expr, sem_kind = semantic_check(cirq, rng, ops_in, ops_out, cfg.contract)
         checks.append(dict(case=case_no, what='semantics', stream=f'{cfg.id}:{sem_kind}', expr=expr, cfg=cfg, desc=desc,
                            rep=dict(rep, output=repr(out), output_diagram=str(out), root_cause=root_cause(cirq, cfg, circuit, out, deep))))
